@@ -1,5 +1,6 @@
 import Driver.Parse
 import EchoVerif.Model.Bus
+import EchoVerif.Generated.Reduce
 
 namespace Driver.C18
 open EchoVerif EchoVerif.Bus Driver
@@ -53,5 +54,8 @@ def reduce (isComm : ReduceOp → Bool) : P String := do
     let vs ← counted bytes
     done
     pure (bytesTok (op.apply vs) ++ " comm=" ++ (if isComm op then "1" else "0"))
+
+def handlers : List (String × (List String → String)) :=
+  [("C18.bus", runP bus), ("C18.reduce", runP (reduce Generated.reduceIsCommutative))]
 
 end Driver.C18
